@@ -1,9 +1,14 @@
 package main
 
 import (
+	"encoding/json"
 	"flag"
 	"fmt"
 	"os"
+	"os/exec"
+	"path/filepath"
+	"strings"
+	"sync"
 	"runtime/debug"
 	"sort"
 	"strconv"
@@ -12,6 +17,7 @@ import (
 	"verif/ssvcheck/internal/core"
 	"verif/ssvcheck/internal/ens"
 	"verif/ssvcheck/internal/load"
+	"verif/ssvcheck/internal/patch"
 	"verif/ssvcheck/internal/rules"
 )
 
@@ -21,6 +27,7 @@ func check(args []string) int {
 	tier := fs.String("tier", "quick", "quick|thorough")
 	dir := fs.String("dir", "/repo", "repository under analysis")
 	verif := fs.String("verif", "/verif", "verif directory (evidence, known findings)")
+	patchFile := fs.String("patch", "", "analyse the tree with this unified diff applied in memory (control runs)")
 	fs.Parse(args)
 	t0 := time.Now()
 	ck := rules.Registry[*prop]
@@ -46,7 +53,16 @@ func check(args []string) int {
 				code = 2
 			}
 		}()
-		p, err := load.Load(load.Config{Dir: *dir, Patterns: pats})
+		var overlay map[string][]byte
+		if *patchFile != "" {
+			ov, err := patch.Overlay(*dir, *patchFile)
+			if err != nil {
+				fmt.Printf("CONTROL-NOT-APPLICABLE property=%s %s: %v\n", *prop, *patchFile, err)
+				return 3
+			}
+			overlay = ov
+		}
+		p, err := load.Load(load.Config{Dir: *dir, Patterns: pats, Overlay: overlay})
 		if err != nil {
 			fmt.Printf("INFRA-FAILURE property=%s load: %v\n", *prop, err)
 			os.Remove(*verif + "/evidence/" + *prop + ".json")
@@ -57,10 +73,114 @@ func check(args []string) int {
 		if ck.Setup != nil {
 			ck.Setup(ctx.E)
 		}
+		if *tier == "thorough" && *patchFile == "" {
+			if bad := runControls(ctx, *prop, *dir, *verif); bad > 0 {
+				ctx.Infra = append(ctx.Infra, fmt.Sprintf("%d control(s) of the checker's self-validation changed outcome (see CONTROL-FAILED lines): the check has lost sensitivity or become noisy and its verdict is not to be trusted", bad))
+			}
+		}
 		ctx.Count("packages_loaded", len(p.All))
 		ctx.Count("ssv_node_packages", len(p.NodePkgs))
 		ck.Run(ctx)
 		return ctx.Finish(*verif, seed, t0)
 	}()
 	return code
+}
+
+type control struct {
+	ID       string   `json:"id"`
+	Patch    string   `json:"patch"`
+	Property string   `json:"property"`
+	Expect   string   `json:"expect"`
+	Kind     string   `json:"kind"`
+	OK       bool     `json:"ok"`
+	Rules    []string `json:"rules"`
+}
+
+// runControls re-validates the checker itself (thorough tier): every recorded
+// control of the property — a seeded breaking change, a reverted fix, a hand
+// mutant (expected: the check fires) or a behaviour-preserving edit (expected:
+// silence) — is applied to the current tree IN MEMORY (go/packages overlay;
+// no file is written into the repository) and analysed by a child process.
+// Returns the number of controls whose outcome differs from the recorded one.
+func runControls(ctx *core.Ctx, prop, dir, verif string) int {
+	root, _ := filepath.Abs(filepath.Join(filepath.Dir(os.Args[0]), ".."))
+	b, err := os.ReadFile(filepath.Join(root, "controls", "index.json"))
+	if err != nil {
+		fmt.Printf("controls: none (%v)\n", err)
+		return 0
+	}
+	var idx struct {
+		Controls []control `json:"controls"`
+	}
+	if err := json.Unmarshal(b, &idx); err != nil {
+		fmt.Printf("CONTROL-FAILED index.json: %v\n", err)
+		return 1
+	}
+	var todo []control
+	for _, c := range idx.Controls {
+		if c.Property == prop && c.OK {
+			todo = append(todo, c)
+		}
+	}
+	if len(todo) == 0 {
+		return 0
+	}
+	self, _ := os.Executable()
+	type res struct {
+		c    control
+		code int
+		out  string
+	}
+	results := make([]res, len(todo))
+	sem := make(chan struct{}, 3)
+	var wg sync.WaitGroup
+	for i, c := range todo {
+		wg.Add(1)
+		go func(i int, c control) {
+			defer wg.Done()
+			sem <- struct{}{}
+			defer func() { <-sem }()
+			tmp, err := os.MkdirTemp("", "ssvcheck-control-")
+			if err != nil {
+				results[i] = res{c, 2, err.Error()}
+				return
+			}
+			defer os.RemoveAll(tmp)
+			if kf, err := os.ReadFile(filepath.Join(verif, "known_findings.json")); err == nil {
+				os.WriteFile(filepath.Join(tmp, "known_findings.json"), kf, 0o644)
+			}
+			cmd := exec.Command(self, "check", "-prop", prop, "-tier", "quick", "-dir", dir, "-verif", tmp, "-patch", filepath.Join(root, c.Patch))
+			out, _ := cmd.CombinedOutput()
+			code := 0
+			if cmd.ProcessState != nil {
+				code = cmd.ProcessState.ExitCode()
+			}
+			results[i] = res{c, code, string(out)}
+		}(i, c)
+	}
+	wg.Wait()
+	bad := 0
+	for _, r := range results {
+		obs := map[int]string{0: "silent", 1: "kill", 2: "infra", 3: "not-applicable"}[r.code]
+		switch {
+		case r.code == 3:
+			ctx.Count("controls_not_applicable", 1)
+			fmt.Printf("control %-28s expect=%-6s not applicable to this tree (patch does not apply)\n", r.c.ID, r.c.Expect)
+		case obs == r.c.Expect:
+			ctx.Count("controls_"+r.c.Expect+"_confirmed", 1)
+			fmt.Printf("control %-28s expect=%-6s observed=%s ok\n", r.c.ID, r.c.Expect, obs)
+		default:
+			bad++
+			fmt.Printf("CONTROL-FAILED property=%s control=%s (%s) expected %s, observed %s\n", prop, r.c.ID, r.c.Kind, r.c.Expect, obs)
+			if r.c.Expect == "silent" {
+				for _, l := range strings.Split(r.out, "\n") {
+					if strings.HasPrefix(l, "  violated") || strings.HasPrefix(l, "  undischarged") {
+						fmt.Println("   " + l)
+					}
+				}
+			}
+		}
+	}
+	ctx.Count("controls_run", len(results))
+	return bad
 }
